@@ -34,6 +34,7 @@ type c17Input struct {
 	Placement   string     `json:"placement"` // inpkg | separate
 	Boilerplate *string    `json:"boilerplate"` // nil: not configured
 	RelPath     bool       `json:"relPath"`     // boilerplate-file given relative to the working directory
+	Link        bool       `json:"link,omitempty"` // the configured path is a symbolic link to the file that holds the text
 	Expr        *BExprJ    `json:"expr"`        // nil: mock-build-tags not configured
 	TagsText    string     `json:"tagsText"`    // the expression as written into the configuration
 	TagsCanon   string     `json:"tagsCanon"`   // the same expression in go/build/constraint's own spelling (what gofmt rewrites the line to)
@@ -195,6 +196,7 @@ func (c17) Generate(c *Ctx) []any {
 			s := c17GenBoiler(c.Rng)
 			in.Boilerplate = &s
 			in.RelPath = c.Rng.Intn(3) == 0
+			in.Link = i%5 == 3
 		}
 		if (i/12)%4 >= 1 || c.Rng.Intn(4) == 0 {
 			in.Expr = c17GenExpr(c.Rng, 1+c.Rng.Intn(3))
@@ -353,8 +355,19 @@ func (c17) Run(c *Ctx, raw json.RawMessage) Case {
 		fmt.Fprintf(&cfg, "  example.com/m/alt/foo:\n    config:\n      dir: \"{{.InterfaceDir}}\"\n      pkgname: foo\n      template-data:\n        mock-build-tags: \"sibling_only\"\n        boilerplate-file: %q\n    interfaces:\n      Other:\n", filepath.Join(dir, "lic", "alt.txt"))
 	}
 	files[".mockery.yml"] = cfg.String()
+	if in.Link && in.Boilerplate != nil {
+		// the text lives elsewhere; what the configuration names is a link to it
+		files["hack/h.txt"] = *in.Boilerplate
+		delete(files, "lic/boilerplate.txt")
+	}
 	if err := writeFiles(dir, files); err != nil {
 		return Case{Oracle: fail("harness", "%v", err)}
+	}
+	if in.Link && in.Boilerplate != nil {
+		os.MkdirAll(filepath.Join(dir, "lic"), 0o755)
+		if err := os.Symlink("../hack/h.txt", filepath.Join(dir, "lic", "boilerplate.txt")); err != nil {
+			return Case{Oracle: fail("harness", "%v", err)}
+		}
 	}
 	tags := []string{"tmpl-" + in.Template, "fmt-" + in.Formatter, "place-" + in.Placement, "layout-" + in.Layout}
 	if in.Sibling {
